@@ -193,7 +193,9 @@ Inductive ppc :=
 | PClose | PCleanBuf | PCleanWriter | PCleanReader | PUnlock | PClosed (actual : bool)     (* a closer *)
 | OStart | OHaveLock | OChecked | OUse (left : nat) | ORet (ok : bool) | OPanicked.           (* a reader op with `left` Read calls *)
 
-Definition pstep (reads : nat) (t : ppc) (s : psh) : ppc * psh :=
+(* fixed = true: onClose closes reader / writer but keeps the fields (repository commit cedd5da);
+   fixed = false: the pinned code, which also sets them to nil without holding readLock / writeLock *)
+Definition pstep (fixed : bool) (reads : nat) (t : ppc) (s : psh) : ppc * psh :=
   let upd c d r rd rc pn := {| p_closed := c; p_dlock := d; p_rlock := r; p_reader := rd; p_rclose := rc; p_panics := pn |} in
   match t with
   | PClose => if p_dlock s then (t, s)
@@ -201,7 +203,8 @@ Definition pstep (reads : nat) (t : ppc) (s : psh) : ppc * psh :=
               else (PCleanBuf, upd true true (p_rlock s) (p_reader s) (p_rclose s) (p_panics s))
   | PCleanBuf => (PCleanWriter, s)                                       (* bufferMgr.Close(); bufferMgr = nil *)
   | PCleanWriter => (PCleanReader, s)                                    (* writer.Close(); writer = nil *)
-  | PCleanReader => (PUnlock, if p_reader s then upd (p_closed s) (p_dlock s) (p_rlock s) false (S (p_rclose s)) (p_panics s) else s)
+  | PCleanReader => (PUnlock, if p_reader s   (* reader.Close(); pinned code: reader = nil *)
+                              then upd (p_closed s) (p_dlock s) (p_rlock s) fixed (S (p_rclose s)) (p_panics s) else s)
   | PUnlock => (PClosed true, upd (p_closed s) false (p_rlock s) (p_reader s) (p_rclose s) (p_panics s))
   | OStart => if p_rlock s then (t, s) else (OHaveLock, upd (p_closed s) (p_dlock s) true (p_reader s) (p_rclose s) (p_panics s))
   | OHaveLock => if p_dlock s then (t, s)                                (* IsClosed() blocks on currentLock *)
@@ -210,8 +213,13 @@ Definition pstep (reads : nat) (t : ppc) (s : psh) : ppc * psh :=
   | OChecked => if p_reader s then (OUse reads, s)
                 else (ORet false, upd (p_closed s) (p_dlock s) false (p_reader s) (p_rclose s) (p_panics s))   (* ErrReaderNil *)
   | OUse 0 => (ORet true, upd (p_closed s) (p_dlock s) false (p_reader s) (p_rclose s) (p_panics s))
-  | OUse (S k) => if p_reader s then (OUse k, s)
+  | OUse (S k) => if p_reader s
+                  then (* a Read on a reader that Close has closed returns an error: the operation returns it *)
+                       if fixed && (0 <? p_rclose s)
+                       then (ORet false, upd (p_closed s) (p_dlock s) false (p_reader s) (p_rclose s) (p_panics s))
+                       else (OUse k, s)
                   else (OPanicked, upd (p_closed s) (p_dlock s) false (p_reader s) (p_rclose s) (S (p_panics s)))   (* nil-interface call: panic; the deferred readLock.Unlock runs *)
   | PClosed _ | ORet _ | OPanicked => (t, s)
   end.
+Definition p_initial (t : ppc) : bool := match t with PClose | OStart => true | _ => false end.
 Definition pinit : psh := {| p_closed := false; p_dlock := false; p_rlock := false; p_reader := true; p_rclose := 0; p_panics := 0 |}.
